@@ -2,7 +2,7 @@
    Statements only.  [groups] = the value lists of the groups an 'All' row summarises. *)
 From Coq Require Import List ZArith Bool.
 From GL Require Import Lib.Arr Model.Dom Model.Scalar Model.GroupByApi Spec.Defs Proofs.ReduceSeries Proofs.ReduceMerge
-  Proofs.ApiProofs Proofs.MarginProofs Model.Margins Proofs.MarginLevels Proofs.GenTie Gen.TablesGen.
+  Proofs.ApiProofs Proofs.MarginProofs Model.Margins Proofs.MarginLevels Proofs.TieMargins Gen.TablesGen.
 Import ListNotations.
 Open Scope Z_scope.
 
